@@ -19,6 +19,18 @@ def intonly(x=0, *, nid):
     return faclog.call("vfact.intonly", (), {"nid": nid, "x": x})
 
 
+class FieldError(ValueError):
+    """A validation error that carries a location of its own, as many libraries' errors do."""
+
+    def __init__(self, message, where):
+        super().__init__(message)
+        self.where = where
+
+
+def boom_where(*args, **kwargs):
+    raise FieldError("field 'rate' out of range", where="rate")
+
+
 def boom(*args, **kwargs):
     raise ValueError("factory failed on purpose")
 
